@@ -190,11 +190,25 @@ def allowedCalls (c : Cfg) : List String :=
           let vars : Vars Char := [(vU, u.toList), (vA, ("TOK" ++ i).toList), (vI, i.toList), (vG, c.g.toList)]
           (specStep c s.name cd vars).1.calls
 
-def expectedCallCount (c : Cfg) (shots : Nat) : Nat :=
-  let ammos := ammoList c
-  (List.range shots).foldl (fun acc k => acc + ((ammos[k % ammos.length]?).map (·.reqs.length)).getD 0) 0
+/-- Engine runs: an instance first acquires an ammo and then waits for a schedule token (`instance.Run`), so with `n`
+instances sharing a schedule of `shots` tokens the ammos actually fired are `shots` of the first `shots + n - 1` ammos
+of the provider's order (up to `n - 1` acquired ammos find the schedule exhausted and are dropped; which ones is a
+race). The number of calls therefore lies between the sum of the step counts of those ammos minus the `n - 1` largest
+and minus the `n - 1` smallest; for one instance it is exact. -/
+def insertNat (x : Nat) : List Nat → List Nat
+  | [] => [x]
+  | y :: ys => if x ≤ y then x :: y :: ys else y :: insertNat x ys
 
-def judgeEngineScen (c : Cfg) (shots : Nat) (impl : String) : String :=
+def callCountRange (c : Cfg) (n shots : Nat) : Nat × Nat :=
+  let ammos := ammoList c
+  let lens := (List.range (shots + n - 1)).map fun k => ((ammos[k % ammos.length]?).map (·.reqs.length)).getD 0
+  let sorted := lens.foldr insertNat []
+  let total := lens.foldl (· + ·) 0
+  let smallest := (sorted.take (n - 1)).foldl (· + ·) 0
+  let largest := ((sorted.reverse).take (n - 1)).foldl (· + ·) 0
+  (total - largest, total - smallest)
+
+def judgeEngineScen (c : Cfg) (n shots : Nat) (impl : String) : String :=
   match crashKey impl with
   | some k => "fail:" ++ k
   | none =>
@@ -209,9 +223,9 @@ def judgeEngineScen (c : Cfg) (shots : Nat) (impl : String) : String :=
       else if (allowed.map (proj 2)).contains (proj 2 bad) then s!"fail:metadata:received {bad}, which no shot's variables render"
       else s!"fail:message:received {bad}"
     | none =>
-      let n := expectedCallCount c shots
-      if calls.length != n then s!"fail:count:expected {n} calls, server received {calls.length}"
-      else if samples.length != n then s!"fail:sample:expected {n} samples, got {samples.length}"
+      let (lo, hi) := callCountRange c (if n == 0 then 1 else n) shots
+      if calls.length < lo || calls.length > hi then s!"fail:count:expected {lo}..{hi} calls, server received {calls.length}"
+      else if samples.length != calls.length then s!"fail:sample:{calls.length} calls but {samples.length} samples"
       else match samples.find? (fun s => !(s.endsWith "/200")) with
         | some s => s!"fail:sample:unexpected failed sample {s}"
         | none => "ok"
